@@ -29,6 +29,10 @@ TRUSTED_BASE = [
     "uuid.UUID(bytes=)/.bytes, enum lookup by value, datetime.timedelta integer arithmetic and range errors",
     "IO[bytes].write appends, IO[bytes].read(n) returns min(n, remaining) bytes (all for n < 0); io.BytesIO; contextlib.closing",
     "dataclasses (generated __init__/__eq__ of frozen slotted kw_only dataclasses), typing.get_origin/get_args, functools.cache",
+    "floats computed by the code under contract: the standard model of IEEE-754 binary64 round-to-nearest (each operation's "
+    "result r satisfies |r - exact| <= 2^-53 |exact| in the normal range; kvc/fpmodel.py) and CPython's correctly rounded int/int, "
+    "timedelta.total_seconds(), aware datetime.timestamp(), exact round(float)/int(float) - machine arithmetic treated as "
+    "bounded-error real arithmetic (an over-approximation: proofs hold for the machine, counter-models are replayed natively)",
     "z3 4.x / cvc5 1.4 (solver soundness)",
     "spec/kafka.py: the Kafka encodings as written from the protocol guide (the specification itself)",
 ]
